@@ -44,6 +44,13 @@ def cl(n):
     return s
 
 
+def cn_(letters):
+    n = 0
+    for ch in letters:
+        n = n * 26 + ord(ch) - 64
+    return n
+
+
 def planted(s, c, r, rows_in_sheet=N):
     """value at 1-based (c, r) of sheet s, None = blank"""
     return val(s, c, r) if 1 <= c <= N and 1 <= r <= N else None
@@ -143,6 +150,8 @@ def plan(tier, seed):
         cols = list(range(1, 16385))
     else:
         cols = list(range(1, 61)) + list(range(650, 761)) + list(range(16380, 16385)) + [18278 % 16384, 1378, 1379, 2000]
+        # columns whose letters are the name of a supported function (IF5 is a cell, not a call)
+        cols += sorted({cn_(k) for k in ('AND', 'DAY', 'IF', 'MAX', 'MID', 'MIN', 'OR', 'SUM', 'IFS')} - set(cols))
     phases.append({'name': 'every-column', 'cases': [{'cols': cols[i:i + 1024]} for i in range(0, len(cols), 1024)],
                    'runner': 'run_columns', 'chunk': 1, 'samples': 1})
     rows = list(range(1, 31)) + [99, 100, 101, 999, 1000, 1001, 9999, 10000]
@@ -459,23 +468,31 @@ def run_columns(cases, stats):
             forms[f'A{j + 1}'] = f"=D!{d[0]}{cl(k)}{d[1]}1"
             forms[f'B{j + 1}'] = f"=SUM('D'!{cl(k)}1:{cl(k)}1)"
             forms[f'C{j + 1}'] = f"=COLUMN(D!{cl(k)}1)"
+        for k in cols:
+            data[f'{cl(k)}2'] = f'={cl(k)}1'      # the bare, relative spelling on the cell's own sheet (IF1, SUM1, ...)
         kind, text = D.translate([('D', data), ('F', forms)], budget=300)
         stats['transitions'] += 1
-        assert kind == 'TEXT', (kind, text)
-        k2, cls, _ = D.load_class(text)
-        assert k2 == 'CLASS', (k2, cls)
+        cls = None
+        if kind == 'TEXT':
+            k2, cls, _ = D.load_class(text)
+            if k2 != 'CLASS':
+                kind, text = k2, cls
+        if kind != 'TEXT':
+            vio.append({'i': i, 'desc': {'kind': 'column', 'position': 'workbook', 'outcome': kind}, 'expected': 'translates',
+                        'observed': [cl(cols[0]) + '..' + cl(cols[-1]), str(text)[:300]]})
+            continue
         ex = D.new_executor(cls)
         for j, k in enumerate(cols):
             exp = data[f'{cl(k)}1']
-            for col, e in (('A', exp), ('B', exp), ('C', k)):
-                out = D.eval_cell(ex, 'F', col, str(j + 1))
+            for col, e in (('A', exp), ('B', exp), ('C', k), ('own', exp)):
+                out = D.eval_cell(ex, 'F', col, str(j + 1)) if col != 'own' else D.eval_cell(ex, 'D', cl(k), '2')
                 stats['validated'] += 1
                 stats['evaluations'] += 1
                 if k > 26:
                     stats['nontrivial'] += 1
                 if not same(e, out):
                     vio.append({'i': i, 'desc': {'kind': 'column', 'letters': len(cl(k)), 'position': {'A': 'bare', 'B': 'SUM',
-                                                                                                   'C': 'COLUMN'}[col],
+                                                                                                   'C': 'COLUMN', 'own': 'bare-own-sheet'}[col],
                                                  'outcome': out[0] if out[0] != 'VALUE' else 'VALUE_MISMATCH'},
                                 'expected': e, 'observed': [cl(k), D.enc(out[1]) if out[0] == 'VALUE' else list(out)]})
                     break
